@@ -25,7 +25,7 @@ func infeasibleStep(desc string) (string, bool) {
 }
 
 func c19(c *core.Ctx, r *core.Report) {
-	r.Explain("R19.forms: must-pass-through on the SSA control-flow graph of maypanic.findGoFunctions: every path from the entry of the `*ssa.Go` arm to the end of the loop iteration must call addGoFunction; paths are enumerated exhaustively and keyed by their branch decisions; decisions that contradict go/ssa invariants (MakeClosure.Fn is always a *ssa.Function) discharge the path. R19.recover: doesRecover recognises the recover builtin by type (*ssa.Builtin) in the function's own body; unhandled defer forms in doesDeferRecover answer 'does not recover' (over-report, allowed). R19.filter: the only removals from the go-function map are guarded by the allow-list / -exclude predicates.")
+	r.Explain("R19.forms: on the SSA of maypanic.findGoFunctions (helpers inlined), for every form of the launched callee - each dynamic kind of Call.Value that can hold a function, and interface-method invocation (Call.IsInvoke()) - an update of the map keyed by *ssa.Function must be reachable from the entry of the `*ssa.Go` arm when the type tests on Call.Value (also inside helpers, whose boolean results are evaluated) are decided for that kind. R19.recover: doesRecover recognises the recover builtin by type (*ssa.Builtin) in the function's own body; unhandled defer forms in doesDeferRecover answer 'does not recover' (over-report, allowed). R19.filter: the only removals from the go-function map are guarded by the allow-list / -exclude predicates.")
 	r.NotDecided("whether the reported set is complete for programs whose goroutine entry is reached through the unrecorded forms (they are findings below); nothing about panics themselves.")
 	fn := c.Func("analysis/maypanic", "findGoFunctions")
 	if fn == nil {
@@ -33,44 +33,90 @@ func c19(c *core.Ctx, r *core.Report) {
 		return
 	}
 	r.Analysed("analysis/maypanic.findGoFunctions")
-	entries, ifBlocks := core.TypeCaseEntry(fn, "Go")
+	entries, _ := core.TypeCaseEntry(fn, "Go")
 	if len(entries) == 0 {
 		r.Fail("R19.forms", "analysis/maypanic.findGoFunctions|go-arm", c.Pos(fn.Pos()), "no arm for *ssa.Go: no goroutine is ever recorded")
 		return
 	}
-	record := core.CallsNamed("addGoFunction")
-	total, recorded := 0, 0
-	for i, e := range entries {
-		// the iteration ends when control reaches a block also reachable without entering the arm: the false successor's closure
-		other := ifBlocks[i].Succs[1]
-		stop := func(b *ssa.BasicBlock) bool { return b == other || b.Dominates(ifBlocks[i]) }
-		paths, complete := core.EnumeratePaths(e, stop, 5000)
-		if !complete {
-			r.Fail("R19.forms", "analysis/maypanic.findGoFunctions|path-limit", c.Pos(fn.Pos()), "too many paths to enumerate (undecided)")
-		}
-		seen := map[string]bool{}
-		for _, p := range paths {
-			total++
-			desc := p.Describe()
-			if core.PathHas(p, false, record) {
-				recorded++
-				if !seen["ok|"+desc] {
-					seen["ok|"+desc] = true
-					r.OK("R19.forms", "analysis/maypanic.findGoFunctions|"+desc, c.Pos(e.Instrs[0].Pos()), "path records the launched function (addGoFunction)")
-				}
-				continue
+	// Recording = an update of a map keyed by *ssa.Function (directly or in a helper such as addGoFunction), in the
+	// go arm. For every form of the launched callee - interface method invocation, and each dynamic kind of callee
+	// value - decide by partial evaluation (E11) whether a recording update is reachable.
+	region := map[*ssa.BasicBlock]bool{}
+	for _, e := range entries {
+		for _, b := range fn.Blocks {
+			if e.Dominates(b) {
+				region[b] = true
 			}
-			if why, ok := infeasibleStep(desc); ok {
-				r.Except("R19.forms", "analysis/maypanic.findGoFunctions|"+desc, c.Pos(e.Instrs[0].Pos()), "infeasible: "+why)
-				continue
-			}
-			r.Fail("R19.forms", "analysis/maypanic.findGoFunctions|"+desc, c.Pos(e.Instrs[0].Pos()),
-				"a go statement taking this path is not recorded: its entry function can never be reported as an unrecovered-panic goroutine")
 		}
 	}
-	r.Extra["go_arm_paths"] = total
-	r.Extra["go_arm_paths_recording"] = recorded
-	r.Floor("R19.forms", 3, "function / closure arms + unrecorded arms")
+	targets := core.InlinedInstrsFrom(c, fn, region, 3, func(ins ssa.Instruction) bool {
+		mu, ok := ins.(*ssa.MapUpdate)
+		if !ok {
+			return false
+		}
+		m, ok := types.Unalias(mu.Map.Type()).Underlying().(*types.Map)
+		return ok && strings.HasSuffix(m.Key().String(), "ssa.Function")
+	})
+	if len(targets) == 0 {
+		r.Fail("R19.forms", "analysis/maypanic.findGoFunctions|records", c.Pos(fn.Pos()), "the go arm never records a function (no update of a map keyed by *ssa.Function in the arm or its helpers)")
+		return
+	}
+	_, valueIface := c.NamedIface(core.SSAPath, "Value")
+	reach := func(k types.Type, invoke bool) bool {
+		for _, e := range entries {
+			for _, t := range targets {
+				if t.ReachableForKindAssuming(e, "Call.Value", k, map[string]bool{"IsInvoke": invoke}) {
+					return true
+				}
+			}
+		}
+		return false
+	}
+	var fnT types.Type
+	var static, dynamicLost, dynamicOK []string
+	for _, im := range c.Implementers(valueIface) {
+		name := core.ShortType(im)
+		if name == "*ssa.Function" {
+			fnT = im
+		}
+		if why := valueNeverFuncOrIface[name]; why != "" {
+			continue // cannot be the callee of a go statement
+		}
+		switch name {
+		case "*ssa.Builtin", "*ssa.Const", "*ssa.MakeInterface", "*ssa.ChangeInterface":
+			continue // builtins have no body to report, a constant callee is nil, interface values are called in invoke mode
+		}
+		ok := reach(im, false)
+		switch {
+		case name == "*ssa.Function" || name == "*ssa.MakeClosure":
+			if ok {
+				static = append(static, name)
+			}
+		case ok:
+			dynamicOK = append(dynamicOK, name)
+		default:
+			dynamicLost = append(dynamicLost, name)
+		}
+	}
+	sort.Strings(static)
+	sort.Strings(dynamicLost)
+	pos := c.Pos(entries[0].Instrs[0].Pos())
+	r.Check(len(static) == 2, "R19.forms", "analysis/maypanic.findGoFunctions|static-callee", pos,
+		"`go f()` and `go func(){...}()` record the launched function", "a go statement launching a named function or a closure literal is not recorded (recorded kinds: "+strings.Join(static, ", ")+")")
+	r.Check(len(dynamicLost) == 0, "R19.forms", "analysis/maypanic.findGoFunctions|function-value", pos,
+		"a go statement through a function value records its possible targets",
+		"a go statement whose callee is a function value ("+strings.Join(dynamicLost, ", ")+") is not recorded: its entry function can never be reported as an unrecovered-panic goroutine")
+	invokeOK := fnT != nil && reach(fnT, true)
+	for _, im := range c.Implementers(valueIface) {
+		if !invokeOK && valueNeverFuncOrIface[core.ShortType(im)] == "" && reach(im, true) {
+			invokeOK = true
+		}
+	}
+	r.Check(invokeOK, "R19.forms", "analysis/maypanic.findGoFunctions|invoke-mode", pos,
+		"a go statement through an interface method records its possible targets",
+		"a go statement invoking an interface method (`go r.Run()`, Call.IsInvoke()) is not recorded: its entry function can never be reported as an unrecovered-panic goroutine")
+	r.Extra["go_arm_record_sites"] = len(targets)
+	r.Floor("R19.forms", 3, "static / function-value / invoke forms")
 
 	// ---- R19.recover
 	if dr := c.Func("analysis/maypanic", "doesRecover"); dr != nil {
